@@ -10,7 +10,10 @@ import (
 	appsv1 "k8s.io/api/apps/v1"
 	corev1 "k8s.io/api/core/v1"
 	metav1 "k8s.io/apimachinery/pkg/apis/meta/v1"
+	"k8s.io/apimachinery/pkg/runtime"
+	"k8s.io/apimachinery/pkg/types"
 	"k8s.io/client-go/kubernetes/fake"
+	k8stesting "k8s.io/client-go/testing"
 
 	k8sshard "tkestack.io/kvass/pkg/shard/kubernetes"
 	"verif/engine/chk"
@@ -263,6 +266,107 @@ func init() {
 						}
 					}
 				}
+			}
+		}
+		// ---- (1c) the API server rejects a call (conflict) at each write of the un-faulted run: nothing may be
+		// deleted unless the scale change itself went through --------------------------------------------
+		for old := 1; old <= 4; old++ {
+			for nw := 0; nw < old; nw++ {
+				for _, failVerb := range []string{"update", "get"} {
+					idx++
+					if !c.Mine(idx) {
+						continue
+					}
+					cs := map[string]interface{}{"old": old, "new": nw, "failing_call": failVerb + " statefulsets"}
+					cli := fake.NewSimpleClientset()
+					sts := c18Sts("rep1", int32(old), 2, [3]int32{int32(old), int32(old), int32(old)})
+					cli.AppsV1().StatefulSets(c18NS).Create(context.TODO(), sts, metav1.CreateOptions{})
+					for t := 0; t < 2; t++ {
+						for i := 0; i < old; i++ {
+							p := &corev1.PersistentVolumeClaim{}
+							p.Name, p.Namespace = claimName(t, "rep1", i), c18NS
+							cli.CoreV1().PersistentVolumeClaims(c18NS).Create(context.TODO(), p, metav1.CreateOptions{})
+						}
+					}
+					failed := false
+					cli.PrependReactor(failVerb, "statefulsets", func(action k8stesting.Action) (bool, runtime.Object, error) {
+						if failed {
+							return false, nil, nil
+						}
+						failed = true
+						return true, nil, fmt.Errorf("scripted: conflict")
+					})
+					before := listClaims(cli)
+					m := k8sshard.VerifNewShardManager(cli, sts, 8080, true, c18Log(), nil)
+					err := m.ChangeScale(int32(nw))
+					r.States++
+					r.Transitions++
+					r.Nontrivial++
+					g, _ := cli.AppsV1().StatefulSets(c18NS).Get(context.TODO(), "rep1", metav1.GetOptions{})
+					after := listClaims(cli)
+					if err == nil {
+						viol("C18:api-error-swallowed", "scale", fmt.Sprintf("ChangeScale(%d) from %d returned no error although %s failed", nw, old, failVerb), cs)
+					}
+					if int(*g.Spec.Replicas) == old && len(after) != len(before) {
+						viol("C18:claims-deleted-although-scale-failed", "claims", fmt.Sprintf("the %s call failed, the set still has %d replicas, but claims went from %v to %v", failVerb, old, before, after), cs)
+					}
+				}
+			}
+		}
+		// ---- (1d) one ReplicasManager over several cycles: a pod comes back with another IP (same name) -----
+		if c.Part == 0 {
+			idx++
+			cli := fake.NewSimpleClientset()
+			sts := c18Sts("rep1", 3, 1, [3]int32{3, 3, 3})
+			cli.AppsV1().StatefulSets(c18NS).Create(context.TODO(), sts, metav1.CreateOptions{})
+			mkPod := func(i int, ip string) *corev1.Pod {
+				p := &corev1.Pod{}
+				p.Name, p.Namespace = fmt.Sprintf("rep1-%d", i), c18NS
+				p.UID = types.UID(fmt.Sprintf("uid-%d", i))
+				p.Labels = map[string]string{"k8s-app": "prometheus", "rep": "rep1"}
+				p.Status.PodIP = ip
+				return p
+			}
+			for _, i := range []int{2, 0, 1} {
+				cli.CoreV1().Pods(c18NS).Create(context.TODO(), mkPod(i, fmt.Sprintf("10.0.0.%d", 10+i)), metav1.CreateOptions{})
+			}
+			rm := k8sshard.NewReplicasManager(cli, c18NS, "k8s-app=prometheus", 8080, false, c18Log())
+			addrs := func() []string {
+				ms, err := rm.Replicas()
+				if err != nil || len(ms) != 1 {
+					return []string{fmt.Sprintf("replicas: %v %d", err, len(ms))}
+				}
+				sh, _ := ms[0].Shards()
+				var out []string
+				for _, s := range sh {
+					var url string
+					s.APIGet = func(u string, ret interface{}) error { url = u; return fmt.Errorf("recorded") }
+					_, _ = s.RuntimeInfo()
+					out = append(out, fmt.Sprintf("%s@%s ready=%v", s.ID, strings.TrimSuffix(url, "/api/v1/shard/runtimeinfo/"), s.Ready))
+				}
+				return out
+			}
+			a1 := addrs()
+			// the node of pod 1 reboots: same pod object (name, UID), no IP for a while, then another IP
+			p1 := mkPod(1, "")
+			cli.CoreV1().Pods(c18NS).Update(context.TODO(), p1, metav1.UpdateOptions{})
+			a2 := addrs()
+			p1 = mkPod(1, "10.0.3.77")
+			cli.CoreV1().Pods(c18NS).Update(context.TODO(), p1, metav1.UpdateOptions{})
+			a3 := addrs()
+			r.States += 3
+			r.Transitions += 3
+			want1 := []string{"rep1-0@http://10.0.0.10:8080 ready=true", "rep1-1@http://10.0.0.11:8080 ready=true", "rep1-2@http://10.0.0.12:8080 ready=true"}
+			want3 := []string{"rep1-0@http://10.0.0.10:8080 ready=true", "rep1-1@http://10.0.3.77:8080 ready=true", "rep1-2@http://10.0.0.12:8080 ready=true"}
+			cs := map[string]interface{}{"cycle1": a1, "cycle2_pod1_without_ip": a2, "cycle3_pod1_new_ip": a3}
+			if chk.JSON(a1) != chk.JSON(want1) {
+				viol("C18:address:first-listing", "address", fmt.Sprintf("first listing %v, expected %v", a1, want1), cs)
+			}
+			if len(a2) != 3 || !strings.Contains(a2[1], "ready=false") {
+				viol("C18:ready-without-ip:across-cycles", "readiness", fmt.Sprintf("pod 1 lost its IP but the listing says %v", a2), cs)
+			}
+			if chk.JSON(a3) != chk.JSON(want3) {
+				viol("C18:address:stale-after-ip-change", "address", fmt.Sprintf("after pod 1 got a new IP the same ReplicasManager lists %v, expected %v", a3, want3), cs)
 			}
 		}
 		// ---- (2) Shards(): every pod list order, IP pattern, missing ordinal ---------------------
